@@ -154,8 +154,8 @@ def parse_log(path):
     return evs
 
 
-def run_zh(zh, cdir, script, files=None, cpu=CPU_LIMIT, env_extra=None, name="case"):
-    """Run the op interpreter on `script` in cdir.  files: {name: bytes}."""
+def run_zh(zh, cdir, script, files=None, cpu=CPU_LIMIT, env_extra=None, name="case", prefix=()):
+    """Run the op interpreter on `script` in cdir.  files: {name: bytes}.  prefix: e.g. a valgrind command line."""
     os.makedirs(cdir, exist_ok=True)
     for fn, data in (files or {}).items():
         with open(os.path.join(cdir, fn), "wb") as f:
@@ -168,7 +168,7 @@ def run_zh(zh, cdir, script, files=None, cpu=CPU_LIMIT, env_extra=None, name="ca
     for p_ in (logp, outp):
         if os.path.exists(p_):
             os.unlink(p_)
-    r = run_proc([zh, sp, logp, outp], cdir, env=san_env(cdir, env_extra), cpu=cpu)
+    r = run_proc(list(prefix) + [zh, sp, logp, outp], cdir, env=san_env(cdir, env_extra), cpu=cpu)
     r.events = parse_log(logp)
     try:
         r.out = open(outp, "rb").read()
@@ -253,6 +253,63 @@ def crash_signatures(r, where=None):
         if r.sig in (signal.SIGSEGV, signal.SIGBUS, signal.SIGFPE, signal.SIGILL, signal.SIGABRT):
             sigs.append("signal:%s:%s" % (name, loc))
     return sigs
+
+
+# ------------------------------------------------------- valgrind memcheck
+# Second memory monitor (DESIGN 3.1): the uninstrumented build under memcheck sees what ASan cannot - accesses made
+# *inside* uninstrumented libraries (libzstd, libcrypto) on behalf of the library under test with a wrong pointer or
+# size.  Invalid reads/writes/frees, overlapping memcpy and unaddressable syscall parameters are counted;
+# uninitialised-value messages are recorded as observations only.
+MEMCHECK_CPU = 300
+_VG_COUNTED = re.compile(r"==\d+== (Invalid read of size \d+|Invalid write of size \d+|Invalid free\(\)|Mismatched free\(\)|"
+                         r"Source and destination overlap in \w+|Syscall param \S+ points to unaddressable byte\(s\)|"
+                         r"Jump to the invalid address|Process terminating with default action of signal \d+ \(SIG\w+\)|"
+                         r"Argument '\w+' of function \w+ has a fishy \(possibly negative\) value)")
+_VG_UNINIT = re.compile(r"==\d+== (Conditional jump or move depends on uninitialised value|Use of uninitialised value|"
+                        r"Syscall param \S+ (?:points to|contains) uninitialised byte)")
+_VG_FRAME = re.compile(r"==\d+==\s+(?:at|by) 0x[0-9A-F]+: (\S+) \((?:in )?([^)]*)\)")
+
+
+def memcheck_prefix(cdir, name="vg"):
+    return ["valgrind", "--tool=memcheck", "-q", "--leak-check=no", "--error-exitcode=0", "--fullpath-after=", "--num-callers=16",
+            "--error-limit=no", "--log-file=" + os.path.join(cdir, name + ".log")]
+
+
+def memcheck_report(cdir, name="vg"):
+    """(counted signatures, number of uninitialised-value observations) from a memcheck log."""
+    try:
+        text = open(os.path.join(cdir, name + ".log"), errors="replace").read()
+    except FileNotFoundError:
+        return [], 0
+    sigs = []
+    blocks = re.split(r"\n==\d+== \n", text)
+    unin = 0
+    for b in blocks:
+        if _VG_UNINIT.search(b):
+            unin += 1
+        m = _VG_COUNTED.search(b)
+        if not m:
+            continue
+        kind = re.sub(r"\d+", "N", m.group(1)).replace(" ", "-")
+        if kind.startswith("Process-terminating"):
+            continue   # the signal itself is reported through crash_signatures
+        frames = []
+        inlib = False
+        for fm in _VG_FRAME.finditer(b.split("Address 0x")[0]):
+            fn, where = fm.group(1), fm.group(2)
+            if "/harness/" in where:
+                break
+            if "/src/" in where and "/verif/" not in where:
+                inlib = True
+                frames.append(fn)
+            elif not inlib:
+                frames.append(fn)   # frames inside libzstd/libcrypto/libc on top of the library frame
+            if len(frames) >= 4:
+                break
+        if not inlib:
+            continue   # no frame of the tree under test: harness or runtime business
+        sigs.append("memcheck:%s:%s" % (kind, "<-".join(frames)))
+    return sigs, unin
 
 
 # ---------------------------------------------------------- known findings
